@@ -40,7 +40,7 @@ FAMS = ['OO', 'OI', 'OL', 'OU', 'OQ']
 
 
 def shards(tier, seed):
-    n = {'quick': 14, 'thorough': 500}[tier]
+    n = {'quick': 14, 'thorough': 250}[tier]
     out = []
     for i in range(16):
         impl = 'c' if i % 8 < 5 else 'py'
